@@ -40,12 +40,13 @@ _STATS = re.compile(r"(\d+) states generated, (\d+) distinct states found")
 
 
 def run_tlc(pid, module, cfg, timeout=900, workers=None, extra=None, env_extra=None, simulate=None,
-            java_opts=None):
+            java_opts=None, tag=None):
     """Run TLC; returns dict(states, distinct, lines=[REPLAY json objects], out=path, ok, violated)."""
     d = outdir(pid)
-    meta = os.path.join(d, "tlc_" + os.path.splitext(os.path.basename(cfg))[0])
+    base = os.path.splitext(os.path.basename(cfg))[0] + ("_" + tag if tag else "")
+    meta = os.path.join(d, "tlc_" + base)
     shutil.rmtree(meta, ignore_errors=True)
-    outp = os.path.join(d, os.path.splitext(os.path.basename(cfg))[0] + ".tlcout")
+    outp = os.path.join(d, base + ".tlcout")
     cmd = ["timeout", str(timeout), "tlc", "-workers", str(workers or TLC_WORKERS), "-metadir", meta,
            "-cleanup", "-noGenerateSpecTE", "-config", cfg]
     if simulate:
